@@ -271,3 +271,15 @@ pub fn run(tier: Tier, seed: u64) -> i32 {
     report.assume("file contents: three patterns per length; not the whole content space");
     report.finish()
 }
+
+/// Replay of one recorded split case.
+pub fn replay(report: &Report, r: &serde_json::Value) -> bool {
+    match (r["data"].as_str(), r["cuts"].as_array(), r["salt"].as_str(), r["key"].as_str()) {
+        (Some(d), Some(c), Some(s), Some(k)) if c.len() == 4 => {
+            let cuts = [c[0].as_u64().unwrap() as usize, c[1].as_u64().unwrap() as usize, c[2].as_u64().unwrap() as usize, c[3].as_u64().unwrap() as usize];
+            check_split(report, &mc::util::unhex(d), cuts, &mc::util::unhex_n::<16>(s), &mc::util::unhex_n::<32>(k));
+            true
+        }
+        _ => false,
+    }
+}
